@@ -207,6 +207,10 @@ def memsim_ops(config, flags):
                 reg(f'op_badindex4<{t},{sh4}>', 'badindex', 'F_BADINDEX')
         reg(f'op_cast<{t},{"double" if t != "double" else "float"},3,5>', 'cast')
         reg(f'op_cast<{t},{"int" if t != "int" else "float"},2,9>', 'cast')
+        for sh in ('3', '5', '9', '17', '33', '3,5', '2,2,7'):
+            reg(f'op_minmax<{t},{sh}>', 'minmax', 'F_ANYALIGN', keep=True)
+        for sh4 in ('2,3,2,5', '2,2,3,4', '3,2,2,9'):
+            reg(f'op_permute4<{t},{sh4}>', 'permute', keep=True)
         for n in (3, 7, 9, 17, 33):
             reg(f'op_map_cast<{t},{"double" if t != "double" else "float"},{n}>', 'map_cast', 'F_ANYALIGN')
         reg(f'op_map_cast<{t},{"int" if t != "int" else "Int64"},3,5>', 'map_cast', 'F_ANYALIGN')
